@@ -68,18 +68,28 @@ func checkC17(c *Ctx) {
 			if g := loadOfGlobal(call.Call.Args[7]); g != nil && (g.Name() == "LocationUTC" || g.Name() == "UTC") {
 				utc = true
 			}
-			// year/month/day come from the same time value
+			// year/month/day come from the same time value: t.Year(), t.Month(), t.Day() or y, m, d := t.Date()
 			ymd := true
 			var base ssa.Value
 			for i, m := range []string{"Year", "Month", "Day"} {
-				a, ok := call.Call.Args[i].(*ssa.Call)
-				if !ok || a.Call.StaticCallee() == nil || a.Call.StaticCallee().Name() != m {
+				var recv ssa.Value
+				switch a := call.Call.Args[i].(type) {
+				case *ssa.Call:
+					if a.Call.StaticCallee() != nil && calleeFullName(a.Call.StaticCallee()) == "(time.Time)."+m {
+						recv = a.Call.Args[0]
+					}
+				case *ssa.Extract:
+					if dc, ok := a.Tuple.(*ssa.Call); ok && a.Index == i && dc.Call.StaticCallee() != nil && calleeFullName(dc.Call.StaticCallee()) == "(time.Time).Date" {
+						recv = dc.Call.Args[0]
+					}
+				}
+				if recv == nil {
 					ymd = false
 					continue
 				}
 				if base == nil {
-					base = a.Call.Args[0]
-				} else if a.Call.Args[0] != base {
+					base = recv
+				} else if trivialPhi(recv) != trivialPhi(base) {
 					ymd = false
 				}
 			}
